@@ -228,7 +228,7 @@ PROPS["C14"] = {
 
 PROPS["C19"] = {
     "lean": ["OlricModel.Props.C19"],
-    "streams": [("dmaps", (12, 150), (150, 400)), ("failover", (6, 30), (40, 40))],
+    "streams": [("dmaps", (12, 150), (150, 400)), ("failover", (6, 30), (40, 40)), ("rebalance", (5, 3), (24, 5))],
     "model": True,
     "level_text": "Theorems: Destroy leaves no entry of the DMap on any member, primary or backup, every key then reads not-found, a later Put works (C19_destroy*); no operation on DMap a changes any copy of a DMap b != a whatever the keys (C19_isolation, from the frame theorem), and the answers on a do not depend on b's contents (C19_results_independent). Tied to the code by the dmaps stream: names/keys with colliding concatenations, Destroy followed by a white-box listing of all fragments' keys and a client iteration.",
     "design_ref": "DESIGN.md §6 C19",
